@@ -14,10 +14,16 @@ TEXT = ("TLC derives, on exact integers, what the legacy benchstat library must 
         "non-empty order-preserving subsequence, min <= mean <= max, the rendering decision table total and disjoint. Every "
         "collection of three exhaustive families (all value sequences of one cell, all pairs of old/new multisets x tests x alphas, "
         "all small collections x orders x grouping) and TLC-simulated large collections are replayed through "
-        "benchstat.Collection (AddConfig text or AddResults), Tables() once, FormatText and FormatCSV, and compared field by field.")
+        "benchstat.Collection (AddConfig text or AddResults), Tables() once, FormatText and FormatCSV, and compared field by field. "
+        "LONG RUNS (6..70 lines per configuration, equal and lopsided, on both sides of the U-test's limits 25/50; many ties, constant, "
+        "no two values equal, old above/below new): the model fixes retained values, the 'all equal' error, the tie vector, 2U and the "
+        "prescribed method; the harness evaluates the p-value of that method independently (counting dynamic programme / Erfc) and "
+        "judges gate, delta, direction and note with it.")
 NOTE = ("Trusted: TLC, the harness's concretisation of tokens (order-preserving names, units, labels, scale factor, number spelling), "
-        "float-vs-rational comparison at 1e-12 (deltas 1e-9, printed delta 0.005, printed p 0.0005). Auxiliary, outside the model: the "
-        "t-test p-value and, for tied samples of unequal size (known finding of C11), the U-test p-value are taken from the library's "
+        "float-vs-rational comparison at 1e-12 (deltas 1e-9, printed delta 0.005, printed p 0.0005); for long runs the harness's own "
+        "U-test p (float counting programme over the model's tie vector / normal approximation by math.Erfc) and, for every t-test row, "
+        "Welch's p from exact rationals and a quadrature of the t density (internal/stats must agree at 1e-9). Auxiliary, outside the model: "
+        "for tied samples of unequal size inside the exact limits (known finding of C11) the U-test p-value is taken from the library's "
         "own test called on the model's retained samples - the model fixes what is tested, the error cases, the gate and what is "
         "rendered on either side of it; the geomean's numeric value is re-evaluated as exp(mean(log)) over the model's membership. "
         "Marked and not judged: a value exactly on a fence whose quartiles differ, p exactly alpha, the delta value when the old "
@@ -38,7 +44,9 @@ RULE = ("(M) exhaustive TLC run of Legacy.tla over the plan families of the tier
         "replay case per collection of each family; -simulate (1500 / 12000 behaviours, seeded) adds finished collections of 1-3 "
         "configurations x up to 8 lines x 1-2 measurements (3 names, 3 units, label groups, value sets with an outlier / shifted second "
         "configuration / constant first configuration / zeros) under all 300 settings, and 'wide' collections of 45-100 lines filling "
-        "tables of up to 15 rows (5 names x 3 label values), lemmas checked on each. Every case is replayed once on "
+        "tables of up to 15 rows (5 names x 3 label values), lemmas checked on each; 'long' collections (-simulate, 6 workers x 34 / 150 "
+        "behaviours): two configurations of one benchmark with 6..70 lines each (quick: 14 shapes x 16 value kinds x 2 units, cases only; "
+        "thorough: 30 shapes x 16 kinds x 3 units, lemmas checked), U-test (3 alphas) or t-test (2 alphas). Every case is replayed once on "
         "benchstat.Collection. distinct_nontrivial = distinct judged cases in which an outlier is rejected, or an old/new row "
         "reaches the gate without a test error, or a sort changes the first-appearance order, or a zero mean is left out of a "
         "requested geomean.")
@@ -91,7 +99,14 @@ def account(acc, judged):
                     if k["err"]:
                         stat["test_error_" + k["err"]] += 1
                     if c["set"]["test"] == "u" and not k["err"]:
-                        stat["utest_p_exact" if k["pex"] else "utest_p_from_library"] += 1
+                        if k.get("ora"):
+                            known = k["exact"] and len(k["tv"]) < k["n1"] + k["n2"] and k["n1"] != k["n2"]
+                            stat["utest_p_from_library" if known else
+                                 ("utest_p_long_run_exact_counted" if k["exact"] else "utest_p_long_run_normal_approximation")] += 1
+                        else:
+                            stat["utest_p_exact" if k["pex"] else "utest_p_from_library"] += 1
+                    if c["set"]["test"] == "u" and k["err"] == "eq" and k["n1"] + k["n2"] > 20:
+                        stat["utest_all_equal_long_run"] += 1
                     if c["set"]["test"] == "t" and not k["err"]:
                         stat["ttest_p_from_library"] += 1
             if c["set"]["order"] != "none" and len(t["rows"]) > 1:
@@ -176,6 +191,21 @@ def run(ctx):
     if len(sims) < nsim * 0.9 or not any(c["fam"] == "wide" for c in sims):
         raise vlib.Infra("simulation produced %d collections for %d behaviours" % (len(sims), nsim))
     chunk(ctx, acc, sims, "replay of TLC-simulated collections on the legacy benchstat library")
+    del sims
+    # (G) long runs: two configurations of 6..70 lines of one benchmark (both sides of the U-test's limits 25 / 50,
+    # with and without ties, constant, old above / below new); the model fixes retained values, error class, tie vector,
+    # 2U and the prescribed method, the harness evaluates the p-value independently
+    # (-simulate num= is per worker; the set of behaviours is a function of (seed, workers): checked reproducible.
+    # quick: a reduced plan set, cases only; thorough: all plans, lemmas checked on every collection)
+    nw = 6
+    nlong = nw * (34 if q else 150)
+    s = ctx.tlc("Legacy_gen.tla", "Legacy_gen_long_quick.cfg" if q else "Legacy_gen_long.cfg", workers=nw, simulate=nlong // nw,
+                depth=170, timeout=3000, label="simulate+gen-long", env=jenv)
+    longs = s.printed_json("case")
+    if len(longs) < nlong * 0.9 or not all(c["fam"] == "long" for c in longs):
+        raise vlib.Infra("simulation produced %d long-run collections for %d behaviours" % (len(longs), nlong))
+    chunk(ctx, acc, longs, "replay of TLC-simulated long runs on the legacy benchstat library")
+    del longs
     fams, skips, stat, nontriv = acc.fams, acc.skips, acc.stat, acc.nontriv
     if acc.bad:
         ctx.cov["deviation_signatures"] = dict(acc.bad)
